@@ -426,6 +426,7 @@ fn cmd_replay(args: &BTreeMap<String, String>) -> i32 {
             if let Some(raw) = x.raw.as_ref() {
                 let r = &raw.raft;
                 eprintln!("  end n{} {:?} t{} vote{} lead{} promotable {} elapsed {} rand_timeout {} commit{} applied{} last{} pending_conf_index {} conf {:?}", x.id, r.state, r.term, r.vote, r.leader_id, r.promotable(), r.election_elapsed, r.randomized_election_timeout(), r.raft_log.committed, r.raft_log.applied, r.raft_log.last_index(), r.pending_conf_index, r.prs().conf().to_conf_state());
+                eprintln!("     prs {:?} snap_outstanding {:?}", x.obs.prs.iter().map(|p| (p.id, format!("{:?}", p.state), p.matched, p.next_idx, p.pending_snapshot, p.pending_request_snapshot, p.paused)).collect::<Vec<_>>(), x.snap_outstanding);
                 let lo = r.raft_log.first_index();
                 let hi = r.raft_log.last_index();
                 if let Ok(es) = r.raft_log.slice(lo, hi + 1, None, raft::GetEntriesContext::empty(false)) {
